@@ -29,9 +29,9 @@ theorem lookupSpl_cons (e : Nat × SkRef × SkRef) (spl : List (Nat × SkRef × 
     lookupSpl (e :: spl) j = if e.1 = j then some e.2 else lookupSpl spl j := by
   unfold lookupSpl
   by_cases h : e.1 = j
-  · simp [List.find?_cons, h]
+  · simp [h]
   · have : (e.1 == j) = false := by simpa using h
-    simp [List.find?_cons, this, h]
+    simp [this, h]
 
 /-- past the level-0 CAS: working on a level `≥ 1` -/
 def isUpper : Pc → Prop
@@ -456,7 +456,7 @@ theorem C22_conc_step_value (c : CState) (hc : CInv c) (t : Nat) (l : PutLocal)
   · left; intro k; unfold Skiplist.valueOf; rw [hv, h]
   · right
     refine ⟨?_, ?_⟩
-    · unfold Skiplist.valueOf; rw [hv, h]; simp [List.lookup_cons]
+    · unfold Skiplist.valueOf; rw [hv, h]; simp
     · intro k hk
       unfold Skiplist.valueOf; rw [hv, h]
       have : (k == l.key) = false := by simpa using hk
@@ -575,7 +575,7 @@ theorem C22_conc_value_of_put (puts : List (Bytes × Bytes × Nat)) (sched : Lis
     | cons e es ih =>
       obtain ⟨a, b⟩ := e
       by_cases hka : k = a
-      · subst hka; exact ⟨b, by simp [List.lookup_cons], by simp⟩
+      · subst hka; exact ⟨b, by simp, by simp⟩
       · have hne : (k == a) = false := by simpa using hka
         rcases List.mem_cons.mp hmem with h | h
         · simp only [Prod.mk.injEq] at h; exact absurd h.1 hka
